@@ -103,6 +103,109 @@ Proof. intros c H. unfold is_digit, in_range in H. apply andb_true_iff in H. des
 
 (* ------------------------------------------------------------------ *)
 
+Lemma take_while_split : forall p s a b, take_while p s = (a, b) -> s = a ++ b /\ forallb p a = true.
+Proof.
+  intros p. induction s as [|c r IH]; intros a b H; simpl in H.
+  - inversion H. auto.
+  - destruct (p c) eqn:E.
+    + destruct (take_while p r) as [a' b'] eqn:Et. inversion H; subst. destruct (IH a' b eq_refl) as [H1 H2].
+      simpl. rewrite E, H2. subst r. auto.
+    + inversion H. auto.
+Qed.
+
+Lemma not_digit_tail : forall rest, at_empty rest = true ->
+  (match rest with [] => true | c :: _ => negb (is_digit c) end) = true.
+Proof. intros rest H. destruct (at_empty_cases rest H) as [E|[r E]]; subst; reflexivity. Qed.
+
+Lemma scan_unsigned_int : forall d rest, d <> [] -> forallb is_digit d = true -> at_empty rest = true ->
+  scan_unsigned (d ++ rest) = Some (false, d, [], rest).
+Proof.
+  intros d rest Hne Hd Hrest. unfold scan_unsigned. rewrite take_while_app by (auto using not_digit_tail).
+  destruct d as [|c r]; [congruence|].
+  destruct (at_empty_cases rest Hrest) as [E|[r' E]]; subst; reflexivity.
+Qed.
+
+Lemma scan_unsigned_dec : forall ip fp rest,
+  forallb is_digit ip = true -> forallb is_digit fp = true -> fp <> [] -> at_empty rest = true ->
+  scan_unsigned ((ip ++ 46 :: fp) ++ rest) = Some (true, ip, fp, rest).
+Proof.
+  intros ip fp rest Hi Hf Hne Hrest. unfold scan_unsigned. rewrite <- app_assoc. cbn [app].
+  rewrite take_while_app by auto. cbv iota beta.
+  rewrite take_while_app by (auto using not_digit_tail).
+  destruct fp as [|c r]; [congruence|].
+  destruct (at_empty_cases rest Hrest) as [E|[r' E]]; subst; reflexivity.
+Qed.
+
+Lemma dec_body_shape : forall b, dec_body b = true ->
+  exists ip fp, b = ip ++ 46 :: fp /\ canonical_int ip = true /\ forallb is_digit fp = true /\ fp <> [].
+Proof.
+  intros b H. unfold dec_body in H. destruct (take_while is_digit b) as [ip r] eqn:Et.
+  apply andb_true_iff in H. destruct H as [Hc Hr]. destruct (take_while_split _ _ _ _ Et) as [Eb _].
+  destruct r as [|c fp]; [discriminate|]. destruct (N.eqb_spec c 46); [subst c|].
+  - apply andb_true_iff in Hr. destruct Hr as [Hf Hn]. exists ip, fp. repeat split; auto.
+    intro; subst; discriminate.
+  - exfalso. revert Hr. clear -n. destruct c as [|p]; [discriminate|].
+    do 6 (destruct p as [p|p|]; try discriminate). congruence.
+Qed.
+
+(* the numeric shorthands: the scanner gives back the lexical form *)
+Lemma scan_number_forms : forall lex dt rest, at_empty rest = true ->
+  ((ostr_eqb dt (Some xsd_integer) && canonical_int lex) || bare_number lex dt) = true ->
+  scan_number (lex ++ rest) = Some (Lit lex dt None, rest)
+  /\ exists c r, lex = c :: r /\ (is_digit c || (c =? 45)) = true.
+Proof.
+  intros lex dt rest Hrest H. apply orb_true_iff in H. destruct H as [H|H].
+  - apply andb_true_iff in H. destruct H as [Hd Hcan].
+    destruct (ostr_eqb_spec dt (Some xsd_integer)); [subst dt|discriminate].
+    destruct (canonical_digits lex Hcan) as [Hdig [Hstrip Hne]]. destruct lex as [|c r]; [congruence|].
+    assert (Hc : is_digit c = true) by (simpl in Hdig; apply andb_true_iff in Hdig; tauto).
+    pose proof (digit_range c Hc) as Hr. split; [|exists c, r; rewrite Hc; auto].
+    unfold scan_number. cbn [app].
+    assert (H43 : (c =? 43) = false) by (apply N.eqb_neq; lia).
+    assert (H45 : (c =? 45) = false) by (apply N.eqb_neq; lia). rewrite H43, H45.
+    change (c :: r ++ rest) with ((c :: r) ++ rest). rewrite scan_unsigned_int by (auto; discriminate).
+    rewrite Hstrip. reflexivity.
+  - unfold bare_number in H. apply orb_true_iff in H. destruct H as [H|H]; apply andb_true_iff in H; destruct H as [Hd Hs].
+    + destruct (ostr_eqb_spec dt (Some xsd_integer)); [subst dt|discriminate].
+      destruct lex as [|c d]; [discriminate|]. destruct (N.eqb_spec c 45); [subst c|].
+      2:{ exfalso. revert Hs. clear -n. destruct c as [|p]; [discriminate|].
+          do 6 (destruct p as [p|p|]; try discriminate). congruence. }
+      apply andb_true_iff in Hs. destruct Hs as [Hcan Hnz].
+      destruct (canonical_digits d Hcan) as [Hdig [Hstrip Hne]].
+      split; [|exists 45, d; auto].
+      unfold scan_number. cbn [app]. change (45 =? 43) with false. change (45 =? 45) with true. cbv iota.
+      rewrite scan_unsigned_int by auto. rewrite Hstrip. change (2 =? 2) with true. rewrite Hnz. reflexivity.
+    + destruct (ostr_eqb_spec dt (Some xsd_decimal)); [subst dt|discriminate].
+      assert (Hpos : forall b, dec_body b = true -> forall sg, sg = 0 \/ sg = 2 ->
+                match scan_unsigned (b ++ rest) with
+                | Some (isdec, ip, fp, rest0) =>
+                    if isdec then Some (Lit (if sg =? 2 then 45 :: ((match ip with [] => [48] | _ => strip_zeros ip end) ++ 46 :: fp)
+                                             else (match ip with [] => [48] | _ => strip_zeros ip end) ++ 46 :: fp) (Some xsd_decimal) None, rest0)
+                    else None
+                | None => None
+                end = Some (Lit (if sg =? 2 then 45 :: b else b) (Some xsd_decimal) None, rest)
+                /\ exists c r, b = c :: r /\ is_digit c = true).
+      { intros b Hb sg Hsg. destruct (dec_body_shape b Hb) as [ip [fp [Eb [Hcan [Hf Hne]]]]]. subst b.
+        destruct (canonical_digits ip Hcan) as [Hdig [Hstrip Hine]].
+        rewrite scan_unsigned_dec by auto. cbv iota. rewrite Hstrip.
+        destruct ip as [|c r]; [congruence|]. split; [reflexivity|].
+        exists c, (r ++ 46 :: fp). split; [reflexivity|]. simpl in Hdig. apply andb_true_iff in Hdig. tauto. }
+      destruct lex as [|c b]; [discriminate|]. destruct (N.eqb_spec c 45); [subst c|].
+      * destruct (Hpos b Hs 2 (or_intror eq_refl)) as [E _]. split; [|exists 45, b; auto].
+        unfold scan_number. cbn [app]. change (45 =? 43) with false. change (45 =? 45) with true. cbv iota.
+        destruct (scan_unsigned (b ++ rest)) as [[[[isdec ip] fp] r0]|]; [|discriminate].
+        destruct isdec; [|discriminate]. exact E.
+      * assert (Hs' : dec_body (c :: b) = true).
+        { revert Hs. destruct c as [|p]; auto. do 6 (destruct p as [p|p|]; auto); try (exfalso; apply n; reflexivity). }
+        destruct (Hpos (c :: b) Hs' 0 (or_introl eq_refl)) as [E [c' [r' [Ec Hc']]]]. inversion Ec; subst c' r'.
+        pose proof (digit_range c Hc') as Hr. split; [|exists c, b; rewrite Hc'; auto].
+        unfold scan_number. cbn [app].
+        assert (H43 : (c =? 43) = false) by (apply N.eqb_neq; lia). rewrite H43.
+        apply N.eqb_neq in n. rewrite n. change (c :: b ++ rest) with ((c :: b) ++ rest).
+        destruct (scan_unsigned ((c :: b) ++ rest)) as [[[[isdec ip] fp] r0]|]; [|discriminate].
+        destruct isdec; [|discriminate]. exact E.
+Qed.
+
 Lemma scan_quoted : forall st lex dt lang rest,
   term_wf (Lit lex dt lang) = true -> term_tsv_ok (Lit lex dt lang) = true -> at_empty rest = true ->
   scan_term ((quote_of st :: flat_map (esc_char st (quote_of st)) lex ++ [quote_of st]
@@ -147,6 +250,19 @@ Proof.
       destruct (at_empty_cases rest Hrest) as [E|[r E]]; subst; reflexivity.
 Qed.
 
+Lemma scan_term_number : forall c r rest, (is_digit c || (c =? 45)) = true ->
+  scan_term ((c :: r) ++ rest) = scan_number ((c :: r) ++ rest).
+Proof.
+  intros c r rest H. apply orb_true_iff in H. destruct H as [H|H].
+  - pose proof (digit_range c H) as Hr. unfold scan_term. cbn [app].
+    assert (H34 : (c =? 34) = false) by (apply N.eqb_neq; lia).
+    assert (H39 : (c =? 39) = false) by (apply N.eqb_neq; lia).
+    assert (H60 : (c =? 60) = false) by (apply N.eqb_neq; lia).
+    assert (H95 : (c =? 95) = false) by (apply N.eqb_neq; lia).
+    rewrite H34, H39, H60, H95, H. reflexivity.
+  - apply N.eqb_eq in H. subst c. reflexivity.
+Qed.
+
 (* every term of a conformant rendering is recovered, whatever the style and the cell position *)
 Theorem scan_term_render : forall st t rest,
   term_wf t = true -> term_tsv_ok t = true -> at_empty rest = true ->
@@ -166,26 +282,16 @@ Proof.
     + rewrite Hlast. reflexivity.
     + destruct (at_empty_cases rest Hrest) as [E|[r E]]; subst; reflexivity.
   - unfold render_term.
+    assert (Hnum : forall dt', dt' = dt -> lang = None ->
+              ((ostr_eqb dt (Some xsd_integer) && canonical_int lex) || bare_number lex dt) = true ->
+              scan_term (lex ++ rest) = Some (Lit lex dt lang, rest)).
+    { intros dt' _ El H. subst lang. destruct (scan_number_forms lex dt rest Hrest H) as [Hs [c [r [Ec Hc]]]].
+      subst lex. rewrite <- Hs. apply scan_term_number. exact Hc. }
     destruct (st_bare st && ostr_eqb dt (Some xsd_integer) && ostr_eqb lang None && canonical_int lex) eqn:E1.
-    + (* bare integer *)
-      apply andb_true_iff in E1. destruct E1 as [E1 Hcan]. apply andb_true_iff in E1. destruct E1 as [E1 Hl].
+    + apply andb_true_iff in E1. destruct E1 as [E1 Hcan]. apply andb_true_iff in E1. destruct E1 as [E1 Hl].
       apply andb_true_iff in E1. destruct E1 as [_ Hd].
-      destruct (ostr_eqb_spec dt (Some xsd_integer)); [subst dt|discriminate].
-      destruct (ostr_eqb_spec lang None); [subst lang|discriminate].
-      destruct (canonical_digits lex Hcan) as [Hdig [Hstrip Hne]].
-      destruct lex as [|c r]; [congruence|].
-      assert (Hc : is_digit c = true) by (simpl in Hdig; apply andb_true_iff in Hdig; tauto).
-      pose proof (digit_range c Hc) as Hrange.
-      unfold scan_term. cbn [app].
-      assert (H34 : (c =? 34) = false) by (apply N.eqb_neq; lia).
-      assert (H39 : (c =? 39) = false) by (apply N.eqb_neq; lia).
-      assert (H60 : (c =? 60) = false) by (apply N.eqb_neq; lia).
-      assert (H95 : (c =? 95) = false) by (apply N.eqb_neq; lia).
-      rewrite H34, H39, H60, H95, Hc. simpl orb. cbv iota.
-      change (c :: r ++ rest) with ((c :: r) ++ rest).
-      rewrite take_while_app; auto.
-      * rewrite Hstrip. destruct (at_empty_cases rest Hrest) as [E|[r' E]]; subst; reflexivity.
-      * destruct (at_empty_cases rest Hrest) as [E|[r' E]]; subst; reflexivity.
+      destruct (ostr_eqb_spec lang None); [|discriminate].
+      apply (Hnum dt eq_refl); auto. rewrite Hd, Hcan. reflexivity.
     + destruct (st_bare st && ostr_eqb dt (Some xsd_boolean) && ostr_eqb lang None
                 && (str_eqb lex s_true || str_eqb lex s_false)) eqn:E2.
       * apply andb_true_iff in E2. destruct E2 as [E2 Hb]. apply andb_true_iff in E2. destruct E2 as [E2 Hl].
@@ -194,7 +300,11 @@ Proof.
         destruct (ostr_eqb_spec lang None); [subst lang|discriminate].
         apply orb_true_iff in Hb. destruct Hb as [Hb|Hb]; apply str_eqb_true in Hb; subst lex;
           destruct (at_empty_cases rest Hrest) as [E|[r' E]]; subst; reflexivity.
-      * apply scan_quoted; auto.
+      * destruct (st_bare st && ostr_eqb lang None && bare_number lex dt) eqn:E3.
+        -- apply andb_true_iff in E3. destruct E3 as [E3 Hb]. apply andb_true_iff in E3. destruct E3 as [_ Hl].
+           destruct (ostr_eqb_spec lang None); [|discriminate].
+           apply (Hnum dt eq_refl); auto. rewrite Hb. apply orb_true_r.
+        -- apply scan_quoted; auto.
 Qed.
 
 (* ------------------------------------------------------------------ *)
@@ -216,7 +326,15 @@ Proof.
                 && (str_eqb lex s_true || str_eqb lex s_false)) eqn:E2.
       * apply andb_true_iff in E2. destruct E2 as [_ Hb]. apply orb_true_iff in Hb.
         destruct Hb as [Hb|Hb]; apply str_eqb_true in Hb; subst lex; eexists; eexists; split; reflexivity.
-      * eexists; eexists; split; [reflexivity|]. unfold quote_of. destruct (st_sq st); reflexivity.
+      * destruct (st_bare st && ostr_eqb lang None && bare_number lex dt) eqn:E3.
+        -- apply andb_true_iff in E3. destruct E3 as [_ Hb].
+           assert (H : (ostr_eqb dt (Some xsd_integer) && canonical_int lex) || bare_number lex dt = true)
+             by (rewrite Hb; apply orb_true_r).
+           destruct (scan_number_forms lex dt [] eq_refl H) as [_ [c [r [Ec Hc]]]].
+           exists c, r. split; auto. apply orb_true_iff in Hc. destruct Hc as [Hc|Hc].
+           ++ pose proof (digit_range c Hc). apply N.eqb_neq. lia.
+           ++ apply N.eqb_eq in Hc. subst c. reflexivity.
+        -- eexists; eexists; split; [reflexivity|]. unfold quote_of. destruct (st_sq st); reflexivity.
 Qed.
 
 Lemma join_tab_cons : forall x y l, join_tab (x :: y :: l) = x ++ 9 :: join_tab (y :: l).
